@@ -9,10 +9,11 @@
 #define DX(o) (DN(o) == 13 ? 1u : DN(o) == 14 ? 2u : 0u)       /* extended delta bytes  */
 #define LX(o) (LN(o) == 13 ? 1u : LN(o) == 14 ? 2u : 0u)       /* extended length bytes */
 #define HDR(o) (1u + DX(o) + LX(o))
+/* (nibble 15 is reserved: DELTA/LENV are defined as 0 there so that they read only header bytes) */
 #define DELTA(o) (DN(o) < 13 ? DN(o) : DN(o) == 13 ? (uint32_t)(o)[1] + 13u \
-                  : (((uint32_t)(o)[1] << 8) | (uint32_t)(o)[2]) + 269u)
+                  : DN(o) == 14 ? (((uint32_t)(o)[1] << 8) | (uint32_t)(o)[2]) + 269u : 0u)
 #define LENV(o) (LN(o) < 13 ? LN(o) : LN(o) == 13 ? (uint32_t)(o)[1 + DX(o)] + 13u \
-                 : (((uint32_t)(o)[1 + DX(o)] << 8) | (uint32_t)(o)[2 + DX(o)]) + 269u)
+                 : LN(o) == 14 ? (((uint32_t)(o)[1 + DX(o)] << 8) | (uint32_t)(o)[2 + DX(o)]) + 269u : 0u)
 /* An option is well-formed in n bytes iff no nibble is the reserved 15, all extension bytes and the
  * whole value are present, and the delta alone does not exceed the largest option number. */
 #define WELLFORMED(o, n) ((n) >= 1 && DN(o) != 15 && LN(o) != 15 && (n) >= HDR(o) && \
